@@ -725,6 +725,9 @@ func (x *Exec) calleeFrameDuty(st *State, l loc, key string, pos token.Pos) {
 }
 
 func (x *Exec) frameDutyRegion(st *State, root types.Type, r *Term, pos token.Pos, what string) {
+	if r.IsInt() && r.Val.Sign() == 0 {
+		return // the nil slice owns no memory
+	}
 	for fr2 := st.top; fr2 != nil; fr2 = fr2.parent {
 		for h, snap := range fr2.loops {
 			if snap == nil || !fr2.info.loopBlks[h][fr2.block.Index] || snap.locs == nil {
@@ -1235,6 +1238,9 @@ func addrAlloc(v ssa.Value) *ssa.Alloc {
 
 // frameDutyRange: every index of the callee's range [lo,hi) of region r must be assignable by the caller.
 func (x *Exec) frameDutyRange(st *State, l loc, pos token.Pos, what string) {
+	if l.r.IsInt() && l.r.Val.Sign() == 0 {
+		return
+	}
 	mk := func(alloc *Term, locs []loc) *Term {
 		p := Sym(fresh("p"), SInt)
 		cov := tFalse
